@@ -31,11 +31,7 @@ instance : OfScientific EF := ⟨fun m s e => fin ((OfScientific.ofScientific m 
 instance : Inhabited EF := ⟨fin 0⟩
 instance : Transc EF := ⟨EF.exp, EF.log, EF.tanh, EF.artanh, EF.sqrt, EF.softplus, EF.expm1⟩
 instance : HasPi EF := ⟨fin Real.pi⟩
-/-- `log Γ`: finite on `(0, ∞)`; `+∞` at `+∞`; NaN elsewhere (never evaluated there by the families) -/
-def lgamma : EF → EF
-  | fin r => if 0 < r then fin (Real.log (Real.Gamma r)) else nan
-  | pinf => pinf
-  | _ => nan
+/-- `log Γ` is `EF.lgamma` of `Proofs/EF.lean` (finite on `(0, ∞)`, `+∞` at the poles and at `+∞`) -/
 instance : HasLgamma EF := ⟨EF.lgamma⟩
 
 /-! ### evaluation lemmas -/
@@ -72,7 +68,7 @@ theorem tsqrt_fin {r : ℝ} (h : 0 ≤ r) : (Transc.sqrt (fin r) : EF) = fin (Re
   show EF.sqrt (fin r) = _; simp [EF.sqrt, h]
 @[simp] theorem pi_def : (HasPi.pi : EF) = fin Real.pi := rfl
 theorem lgamma_fin {r : ℝ} (h : 0 < r) : (HasLgamma.lgamma (fin r) : EF) = fin (Real.log (Real.Gamma r)) := by
-  show EF.lgamma (fin r) = _; simp [EF.lgamma, h]
+  show EF.lgamma (fin r) = _; simp [EF.lgamma, (Real.Gamma_pos_of_pos h).ne']
 
 @[simp] theorem add_ninf_fin (a : ℝ) : (ninf + fin a : EF) = ninf := rfl
 @[simp] theorem fin_add_ninf (a : ℝ) : (fin a + ninf : EF) = ninf := rfl
